@@ -47,6 +47,11 @@ package socketace
 //@   ensures err == nil ==> result != nil
 //@   ensures err == nil && shouldStartTls ==> cc.secure && cc.securityTech == SecurityTls        :offered_starttls_means_tls_or_no_session
 //@   ensures err == nil && !shouldStartTls ==> cc.secure == old(cc.secure) && spec_sameslice(cc.securityTech, old(cc.securityTech))
+// C01: after the handshake the session keeps reading through the buffered connection (bytes the handshake's
+// reader already pulled from the carrier are not lost): what is wrapped and handed on is the buffered connection
+//@   property C01
+//@   callsite startTls#1 (arg1 streams.Connection) require spec_sameref(arg1, conn)                              :tls_runs_over_the_buffered_connection
+//@   callsite NewNamedConnection#2 (arg0 net.Conn) require spec_sameref(arg0, conn)                              :plain_session_reads_through_the_buffered_connection
 
 //@ func NewClientConnection
 //@   property C05
@@ -74,6 +79,8 @@ package socketace
 //@   callsite tls.Client#1 (tlsConn *tls.Conn, tlsConfig *tls.Config) assert cc.manager != nil ==> tlsConfig.InsecureSkipVerify == G_snap_skipverify(tlsConfig)      :verification_setting_untouched
 //@   callsite tls.Client#1 (tlsConn *tls.Conn, tlsConfig *tls.Config) assert cc.manager == nil ==> !tlsConfig.InsecureSkipVerify      :verification_on_without_manager
 //@   ensures err == nil ==> result != nil                                                                          :connection_only_after_handshake
+//@   property C01
+//@   callsite tls.Client#1 (arg0 net.Conn) require spec_sameref(arg0, conn)                                      :tls_runs_over_the_connection_it_was_given
 
 // ===================================================================================================
 // C06: the session handshake parses arbitrary bytes without crashing and admits only well-formed peers
@@ -183,6 +190,9 @@ package socketace
 //@   callsite NewNamedConnection#1 (nc *streams.NamedConnection, request *Request, response *Response) assert request.Method == "GET" && response.StatusCode == 101    :session_only_after_a_get_upgrade_answered_101
 //@   callsite NewNamedConnection#2 (nc *streams.NamedConnection, request *Request, response *Response) assert request.Method == "GET" && response.StatusCode == 101    :session_only_after_a_get_upgrade_answered_101
 //@   callsite NewNamedConnection#3 (nc *streams.NamedConnection, request *Request, response *Response) assert request.Method == "GET" && response.StatusCode == 101    :session_only_after_a_get_upgrade_answered_101
+//@   property C01
+//@   callsite tls.Server#1 (arg0 net.Conn) require spec_sameref(arg0, conn)                                      :tls_runs_over_the_buffered_connection
+//@   callsite NewNamedConnection#3 (arg0 net.Conn) require spec_sameref(arg0, conn)                              :plain_session_reads_through_the_buffered_connection
 //@   ensures err == nil && sc.secure && !old(sc.secure) ==> sc.securityTech == SecurityTls            :upgraded_means_tls
 
 //@ func (cc *ClientConnection) handshake
